@@ -52,7 +52,7 @@ func runC16(c *core.Ctx) {
 			}
 		}
 		if len(loops) != 2 {
-			o.Fail("expected two loops over the child slice (parent links, kids/count), found %d", len(loops))
+			o.Unrec("expected two loops over the child slice (parent links, kids/count), found %d", len(loops))
 			return
 		}
 		// loop 1: every path through the body sets the parent
@@ -69,7 +69,7 @@ func runC16(c *core.Ctx) {
 				o.At(fn.Site(as, "sets /Parent"))
 			}
 		}
-		o.Require(len(sets) == 2, "expected the parent link to be set on both branches (pending page / finished dict), found %d", len(sets))
+		o.Shape(len(sets) == 2, "expected the parent link to be set on both branches (pending page / finished dict), found %d", len(sets))
 		errStore := []*core.V{}
 		for _, v := range g.Vs {
 			if as, ok := v.AST.(*ast.AssignStmt); ok && core.ExprStr(as.Lhs[0]) == "w.err" {
@@ -153,7 +153,7 @@ func runC16(c *core.Ctx) {
 		st := mapStores(g, parent)
 		if len(st) != 1 {
 			o.Count(1)
-			o.Fail("expected one store into the parent dictionary")
+			o.Unrec("expected one store into the parent dictionary")
 			return
 		}
 		o.At(fn.Site(st[0].Stmt, "hoist"))
@@ -355,7 +355,7 @@ func runC16(c *core.Ctx) {
 				return true
 			})
 		}
-		o.Require(n >= 6, "only %d accesses to futureInt.val found", n)
+		o.Shape(n >= 6, "only %d accesses to futureInt.val found", n)
 	})
 	c.Check("C16-R5", pk+".(*Writer).NewRange", "the parent's next page number after a range is (start of the range) + (pages in the range): it waits for both", func(o *core.Ob) {
 		fn := c.Prog.Func(pk, "(*Writer).NewRange")
@@ -474,7 +474,7 @@ func rulePageNumberAdvance(c *core.Ctx) {
 				return true
 			})
 		}
-		o.Require(o.Evals >= 1, "calls to futureInt.Inc/Add not found")
+		o.Shape(o.Evals >= 1, "calls to futureInt.Inc/Add not found")
 	})
 }
 
@@ -582,7 +582,7 @@ func rulePageTreeReaders(c *core.Ctx) {
 			}
 			return true
 		})
-		o.Require(uses >= 2, "uses of the callback not found")
+		o.Shape(uses >= 2, "uses of the callback not found")
 	})
 }
 
@@ -619,7 +619,7 @@ func ruleRangeCloseNotifies(c *core.Ctx) {
 				o.At(fn.Site(e, "bookkeeping"))
 			}
 		}
-		o.Require(len(tests) >= 2, "the notification of numPagesCb / nextPageNumberCb was not found in Close")
+		o.Shape(len(tests) >= 2, "the notification of numPagesCb / nextPageNumberCb was not found in Close")
 		// the "already closed" return is the only success return allowed in front of them
 		for _, r := range g.Returns() {
 			rs := r.AST.(*ast.ReturnStmt)
